@@ -5,6 +5,7 @@ import Driver.RunH
 import Lace.Model.Cli
 import Lace.Model.CliAsm
 import Lace.Model.TermRun
+import Lace.Model.PathFs
 open Lace Lace.Driver Lace.Cli
 
 namespace Lace.Driver
@@ -135,37 +136,111 @@ def handleS07 (toks : List String) : String :=
     | _, _ => "bad-request"
   | _ => "bad-request"
 
-def showDest : Dest → String
-  | .file none => "absent"
-  | .file (some b) => "file:" ++ bytesHex b
-  | .devFull => "devfull"
-  | .uncreatable => "nodir"
+/-- The file system `harness/src/cli.rs` (`obs_c08`) sets up for one case, as a path-level file
+system: the root stands for the case's scratch directory, `work/` is the working directory and
+holds `s.asm` (inode 1) and `sub/`. -/
+structure S08Case where
+  fs : PathFs.Fs
+  /-- the argument given to `lace compile` -/
+  dest : PathFs.Path
+  /-- `read_path.file_name()`: the one name that may appear in `work/` -/
+  name : PathFs.Name
 
-/-- `S08 flag src dest [lim]` with dest ∈ `absent | pre:<hex> | devfull | nodir` and `lim` ∈
-`- | <hex byte count>` (a file size limit in force while `lace compile` runs). The answer names
-the exit status, the destination afterwards and the number of files left behind next to it. -/
+open PathFs in
+def s08Case (variant kind : String) (pre : Option (List Nat)) (src : List Nat) : S08Case :=
+  let base : Ents := [(["work"], .dir), (["work", "s.asm"], .file 1), (["work", "sub"], .dir)]
+  let mk (ents : Ents) (data : List (Nat × List Nat)) : PathFs.Fs := { ents := ents, data := (1, src) :: data, cwd := ["work"] }
+  if variant == "deep" then
+    -- `n` is a link to the working directory (`ln -s . n`); the destination is `n/n/…/n`
+    { fs := mk (base ++ [(["work", "n"], .link ⟨false, []⟩)]) [],
+      dest := ⟨false, List.replicate (kind.toNat?.getD 0) "n"⟩, name := "n" }
+  else if kind == "devfull" then
+    -- a private character device with /dev/full's numbers
+    { fs := mk (base ++ [(["work", "devfull"], .dev)]) [], dest := ⟨false, ["devfull"]⟩, name := "devfull" }
+  else if kind == "nodir" then
+    { fs := mk base [], dest := ⟨false, ["no-such-dir", "out.lc3"]⟩, name := "out.lc3" }
+  else
+    let isLnk := variant == "lnkrel" || variant == "lnkabs"
+    -- `nu8:` a name that is not valid UTF-8 (here: its lossy rendering), `long:` a 255-byte name:
+    -- plain names in the working directory
+    let name : Name :=
+      if variant == "nu8" then "out��.lc3"
+      else if variant == "long" then String.ofList (List.replicate 251 'n') ++ ".lc3"
+      else if isLnk then "link.lc3" else "out.lc3"
+    let dest : Path := if isLnk then ⟨false, ["sub", "link.lc3"]⟩ else ⟨false, [name]⟩
+    let lnk : Ents :=
+      if variant == "lnkrel" then [(["work", "sub", "link.lc3"], .link ⟨false, ["real.lc3"]⟩)]
+      else if variant == "lnkabs" then [(["work", "sub", "link.lc3"], .link ⟨true, ["work", "sub", "real.lc3"]⟩)]
+      else []
+    -- the pre-existing contents go to the link's target, if the destination is a link
+    let fileLoc : Loc := if isLnk then ["work", "sub", "real.lc3"] else ["work", name]
+    match pre with
+    | none => { fs := mk (base ++ lnk) [], dest := dest, name := name }
+    | some b =>
+      let other : Ents :=
+        if variant == "hard" then [(["work", "sub", "other-name.lc3"], .file 2)]
+        -- `stale:` the name the temporary file will get (the model's process id is 1) exists: a
+        -- symbolic link to the destination
+        else if variant == "stale" then [(["work", tmpName 1], .link ⟨false, ["out.lc3"]⟩)]
+        else []
+      { fs := mk (base ++ lnk ++ [(fileLoc, .file 2)] ++ other) [(2, b)], dest := dest, name := name }
+
+/-- `S08 flag src dest [lim]` with dest ∈ `[nu8:|long:|lnkrel:|lnkabs:|hard:|stale:](absent | pre:<hex>) |
+devfull | nodir | deep:<components>` and `lim` ∈ `- | <hex byte count>` (a file size limit in force while
+`lace compile` runs). The model is `PathFs.compileP` (`write_all_or_nothing` statement by statement,
+every path resolved by every operation) on the file system the harness sets up; the answer is
+computed from the resulting file system exactly as `obs_c08` computes it from the real one: exit
+status, what reading through the destination path gives, and the number of stray directory
+entries in `work/` and `work/sub/` plus one if the other name of a hard-linked destination no
+longer reads the old contents. -/
 def handleS08 (toks : List String) : String :=
   let go (so src dest : String) (lim : Option (Option Nat)) : String :=
-    -- `nu8:`: the destination's name is not valid UTF-8 — irrelevant to what compile does
-    -- `long:` a 255-byte name; `lnkrel:` / `lnkabs:` a symbolic link (live or dangling) — the
-    -- destination as read through the given path afterwards is what the model describes
-    let dest := (["nu8:", "long:", "lnkrel:", "lnkabs:", "hard:"].foldl
-      (fun d pre => if d.startsWith pre then (d.drop pre.length).toString else d) dest)
-    let d : Option Dest :=
-      if dest == "absent" then some (.file none)
-      else if dest == "devfull" then some .devFull
-      else if dest == "nodir" then some .uncreatable
-      else if dest.startsWith "pre:" then (parseBytes (dest.drop 4).toString).map (fun b => Dest.file (some b))
+    let (variant, kind) : String × String :=
+      match ["nu8:", "long:", "lnkrel:", "lnkabs:", "hard:", "stale:", "deep:"].find? (fun pre => dest.startsWith pre) with
+      | some pre => ((pre.dropEnd 1).toString, (dest.drop pre.length).toString)
+      | none => ("", dest)
+    let pre : Option (Option (List Nat)) :=
+      if kind == "absent" || kind == "devfull" || kind == "nodir" || variant == "deep" then some none
+      else if kind.startsWith "pre:" then (parseBytes (kind.drop 4).toString).map some
       else none
-    match parseHex so, parseText src, d, lim with
-    | some so, some src, some d, some lim =>
+    let special := kind == "devfull" || kind == "nodir"
+    match parseHex so, parseText src, parseBytes src, pre, lim with
+    | some so, some src, some srcBytes, some pre, some lim =>
+      if special && variant != "" then "bad-request" else
       match parsedOf (so != 0) src with
       | none => "M st=panic"
       | some p =>
-        let r := compileFs { limit := lim } p { dest := d }
-        "M st=" ++ toString r.1 ++ " dest=" ++ showDest r.2.dest ++
-          " extra=" ++ (match r.2.tmp with | none => "0" | some _ => "1")
-    | _, _, _, _ => "bad-request"
+        let c := s08Case variant kind pre srcBytes
+        let fuel := 40       -- Linux follows at most 40 links
+        let r := PathFs.compileP { limit := lim } fuel 1 p c.fs c.dest
+        let after : String :=
+          if kind == "devfull" then
+            match PathFs.entryAt r.2.ents ["work", "devfull"] with
+            | some .dev => "devfull"
+            | some _ => "device-replaced-by-a-file"
+            | none => "device-removed"
+          else if kind == "nodir" then
+            if (PathFs.entryAt r.2.ents ["work", "no-such-dir"]).isSome then "created" else "nodir"
+          else
+            match PathFs.readPath r.2 fuel c.dest with
+            | .bytes b => "file:" ++ bytesHex b
+            | _ => "absent"
+        let stray (d : PathFs.Loc) (ok : List PathFs.Name) : Nat :=
+          ((PathFs.listDir r.2 d).filter fun n => !ok.contains n).length
+        let otherChanged : Nat :=
+          match pre with
+          | some b =>
+            if variant == "hard" && PathFs.readPath r.2 fuel ⟨false, ["sub", "other-name.lc3"]⟩ != .bytes b then 1 else 0
+          | none => 0
+        -- the links the harness prepared (`stale:` the temporary name, `deep:` `n`) must still be links
+        let isLink (l : PathFs.Loc) : Bool := match PathFs.entryAt r.2.ents l with | some (.link _) => true | _ => false
+        let linksGone : Nat :=
+          (if variant == "stale" && !isLink ["work", PathFs.tmpName 1] then 1 else 0) +
+          (if variant == "deep" && !isLink ["work", "n"] then 1 else 0)
+        let extra := stray ["work"] (["s.asm", "sub", c.name] ++ (if variant == "stale" then [PathFs.tmpName 1] else [])) +
+          stray ["work", "sub"] ["link.lc3", "real.lc3", "other-name.lc3"] + otherChanged + linksGone
+        "M st=" ++ toString r.1 ++ " dest=" ++ after ++ " extra=" ++ toString extra
+    | _, _, _, _, _ => "bad-request"
   match toks with
   | [so, src, dest] => go so src dest (some none)
   | [so, src, dest, lim] => go so src dest (if lim == "-" then some none else (parseHex lim).map some)
